@@ -587,21 +587,26 @@ class DefaultCollectionManager(CollectionManager[K]):
             # ever be used.
             raise RuntimeError("Chained collection modification not permitted with active caching context.")
 
-        if not skip_cycle_check:
-            self._sanity_check_collection_cycles(parent_collection_name, child_collection_names)
+        # The cycle check has to see the chain definitions that will be in
+        # effect when the new rows are written, so it runs inside the
+        # transaction, with the chain table locked against concurrent writers
+        # (two clients adding A->B and B->A at once would otherwise both pass
+        # the check and leave a cycle behind).
+        with self._db.transaction(lock=[self._tables.collection_chain]):
+            if not skip_cycle_check:
+                self._sanity_check_collection_cycles(parent_collection_name, child_collection_names)
 
-        # Look up the collection primary keys corresponding to the
-        # user-provided list of child collection names.  Because there is no
-        # locking for the child collections, it's possible for a concurrent
-        # deletion of one of the children to cause a foreign key constraint
-        # violation when we attempt to insert them in the collection chain
-        # table later.
-        child_records = self.resolve_wildcard(
-            CollectionWildcard.from_names(child_collection_names), flatten_chains=False
-        )
-        child_keys = [child.key for child in child_records]
+            # Look up the collection primary keys corresponding to the
+            # user-provided list of child collection names.  Because there is
+            # no locking for the child collections, it's possible for a
+            # concurrent deletion of one of the children to cause a foreign key
+            # constraint violation when we attempt to insert them in the
+            # collection chain table later.
+            child_records = self.resolve_wildcard(
+                CollectionWildcard.from_names(child_collection_names), flatten_chains=False
+            )
+            child_keys = [child.key for child in child_records]
 
-        with self._db.transaction():
             # Lock the parent collection to prevent concurrent updates to the
             # same collection chain.
             parent_key = self._find_and_lock_collection_chain(parent_collection_name)
@@ -615,9 +620,9 @@ class DefaultCollectionManager(CollectionManager[K]):
         """Raise an exception if any of the collections in the ``child_names``
         list have ``parent_name`` as a child, creating a collection cycle.
 
-        This is only a sanity check, and does not guarantee that no collection
-        cycles are possible.  Concurrent updates might allow collection cycles
-        to be inserted.
+        Must be called inside the transaction that writes the new chain rows,
+        with the chain table locked, so that concurrent updates cannot insert a
+        cycle between the check and the write.
         """
         for record in self.resolve_wildcard(
             CollectionWildcard.from_names(child_collection_names),
